@@ -100,6 +100,8 @@ def judge(family, case, rec):
     Ns = case["Ns"]
     e = len(Ns)
     data = _data(p, Ns, case["dseed"])
+    if case["k"] % 4 == 1:
+        data = [np.asfortranarray(a) if i % 2 == 0 else np.ascontiguousarray(a.T).T for i, a in enumerate(data)]   # column-major inputs
     rng = util.rng_for("C19j", case["k"])
     graph = gmat.weighted(rng, out, "signed") if case["weighted"] else gmat.to_np(out)
     rec.case(family, case, bool(nonsrc and (len(sources) >= 2 or e >= 2)))
